@@ -41,6 +41,50 @@ func decodedStr(raw []byte) string {
 	})
 }
 
+// refBlobProtoOK: the acceptance predicate of C19 on a decoded BlobProto message, written from the statement
+func refBlobProtoOK(pb *v1.BlobProto) bool {
+	if pb == nil || pb.NamespaceVersion != 0 || len(pb.NamespaceId) != 28 || !bytes.Equal(pb.NamespaceId[:18], make([]byte, 18)) {
+		return false
+	}
+	if len(pb.Data) == 0 {
+		return false
+	}
+	return (pb.ShareVersion == 0 && len(pb.Signer) == 0) || (pb.ShareVersion == 1 && len(pb.Signer) == 20)
+}
+
+// blobTxOracle: whenever UnmarshalBlobTx accepts a byte string as a blob transaction, every blob message in
+// it (decoded independently with the protobuf library) satisfies the acceptance predicate, and the returned
+// blobs are those messages, one for one
+func (c *Ctx) blobTxOracle(raw []byte, op string) {
+	c.oracle()
+	var btx *tx.BlobTx
+	var is bool
+	var err error
+	panicked := safe(func() string { btx, is, err = tx.UnmarshalBlobTx(raw); return "" }) == "panic"
+	if panicked || !is || err != nil {
+		return
+	}
+	var msg v1.BlobTx
+	if proto.Unmarshal(raw, &msg) != nil {
+		return
+	}
+	if len(btx.Blobs) != len(msg.Blobs) {
+		c.violate("C19", "", fmt.Sprintf("UnmarshalBlobTx accepted a transaction with %d blob messages and returned %d blobs", len(msg.Blobs), len(btx.Blobs)), "", []string{op})
+		return
+	}
+	for i, pb := range msg.Blobs {
+		if !refBlobProtoOK(pb) {
+			c.violate("C19", "", fmt.Sprintf("UnmarshalBlobTx accepted a transaction whose blob %d of %d does not satisfy the acceptance predicate (namespace version %d, %d id bytes, %d data bytes, share version %d, %d signer bytes)", i, len(msg.Blobs), pb.GetNamespaceVersion(), len(pb.GetNamespaceId()), len(pb.GetData()), pb.GetShareVersion(), len(pb.GetSigner())), "", []string{op})
+			return
+		}
+		b := btx.Blobs[i]
+		if b == nil || !bytes.Equal(b.Data(), pb.Data) || b.ShareVersion() != uint8(pb.ShareVersion) || !bytes.Equal(b.Namespace().ID(), pb.NamespaceId) || !bytes.Equal(b.Signer(), pb.Signer) {
+			c.violate("C19", "", fmt.Sprintf("UnmarshalBlobTx returned a blob %d that is not the blob message it decoded", i), "", []string{op})
+			return
+		}
+	}
+}
+
 func iwStr(raw []byte) string {
 	return safe(func() string {
 		w, ok := tx.UnmarshalIndexWrapper(raw)
@@ -168,6 +212,7 @@ func streamProto(c *Ctx) {
 		c.emit(op, okOr(err, fmt.Sprintf("ok %d:%s", len(raw), dig(raw))))
 		c.nontrivial(op)
 		c.emit("proto blobtx "+hx(raw), decodedStr(raw))
+		c.blobTxOracle(raw, "proto blobtx "+hx(raw))
 		c.oracle()
 		btx, is, err := tx.UnmarshalBlobTx(raw)
 		ok := is && err == nil && bytes.Equal(btx.Tx, inner) && len(btx.Blobs) == nb
@@ -221,6 +266,7 @@ func streamProto(c *Ctx) {
 		c.emit(op2, hx(wraw))
 		c.emit("proto iw "+hx(wraw), iwStr(wraw))
 		c.emit("proto blobtx "+hx(wraw), decodedStr(wraw))
+		c.blobTxOracle(wraw, "proto blobtx "+hx(wraw))
 		c.oracle()
 		w, okw := tx.UnmarshalIndexWrapper(wraw)
 		if !okw || !bytes.Equal(w.Tx, inner) || natList(w.ShareIndexes) != natList(idx) {
@@ -296,6 +342,7 @@ func streamProto(c *Ctx) {
 				mut = c.mutate(mut)
 			}
 			c.emit("proto blobtx "+hx(mut), decodedStr(mut))
+			c.blobTxOracle(mut, "proto blobtx "+hx(mut))
 			c.emit("proto iw "+hx(mut), iwStr(mut))
 			c.emit("proto blob "+hx(mut), blobUnmarshalStr(mut))
 			c.dist("mutated")
@@ -304,6 +351,7 @@ func streamProto(c *Ctx) {
 	for i := 0; i < c.n(300, 20000); i++ {
 		r := c.rng.Bytes(c.rng.Intn(40))
 		c.emit("proto blobtx "+hx(r), decodedStr(r))
+		c.blobTxOracle(r, "proto blobtx "+hx(r))
 		c.emit("proto iw "+hx(r), iwStr(r))
 		c.emit("proto blob "+hx(r), blobUnmarshalStr(r))
 		c.dist("random-bytes")
@@ -387,6 +435,55 @@ func streamProto(c *Ctx) {
 				}
 			}
 		}
+	}
+	// blob transactions with several blobs of which exactly one, at every position, is unacceptable
+	{
+		good := func() *v1.BlobProto {
+			b, _ := c.randBlob(pool[c.rng.Intn(len(pool))], c.rng.Pick([]int{1, 50, 500}), c.rng.Bool()).blob()
+			return &v1.BlobProto{NamespaceId: b.Namespace().ID(), NamespaceVersion: 0, Data: b.Data(), ShareVersion: uint32(b.ShareVersion()), Signer: b.Signer()}
+		}
+		bad := []func(pb *v1.BlobProto){
+			func(pb *v1.BlobProto) { pb.Data = nil },
+			func(pb *v1.BlobProto) { pb.ShareVersion = 0; pb.Signer = bytes.Repeat([]byte{1}, 20) },
+			func(pb *v1.BlobProto) { pb.ShareVersion = 1; pb.Signer = nil },
+			func(pb *v1.BlobProto) { pb.ShareVersion = 1; pb.Signer = bytes.Repeat([]byte{1}, 19) },
+			func(pb *v1.BlobProto) { pb.ShareVersion = 1; pb.Signer = bytes.Repeat([]byte{1}, 21) },
+			func(pb *v1.BlobProto) { pb.ShareVersion = 2; pb.Signer = nil },
+			func(pb *v1.BlobProto) { pb.ShareVersion = 128; pb.Signer = nil },
+			func(pb *v1.BlobProto) { pb.ShareVersion = 256; pb.Signer = nil },
+			func(pb *v1.BlobProto) { pb.NamespaceVersion = 1 },
+			func(pb *v1.BlobProto) { pb.NamespaceVersion = 255 },
+			func(pb *v1.BlobProto) { pb.NamespaceVersion = 256 },
+			func(pb *v1.BlobProto) { pb.NamespaceId = pb.NamespaceId[:27] },
+			func(pb *v1.BlobProto) { pb.NamespaceId = nil },
+			func(pb *v1.BlobProto) { pb.NamespaceId = append([]byte{1}, pb.NamespaceId[1:]...) },
+		}
+		for bi, mk := range bad {
+			for _, k := range []int{2, 3} {
+				for pos := 0; pos < k; pos++ {
+					msg := &v1.BlobTx{Tx: c.rng.Bytes(c.rng.Range(1, 40)), TypeId: "BLOB"}
+					for j := 0; j < k; j++ {
+						pb := good()
+						if j == pos {
+							mk(pb)
+						}
+						msg.Blobs = append(msg.Blobs, pb)
+					}
+					raw, err := proto.Marshal(msg)
+					if err != nil {
+						continue
+					}
+					op := "proto blobtx " + hx(raw)
+					c.emit(op, decodedStr(raw))
+					c.blobTxOracle(raw, op)
+					c.oracle()
+					if _, is, err := tx.UnmarshalBlobTx(raw); is && err == nil {
+						c.violate("C19", "", fmt.Sprintf("UnmarshalBlobTx accepted a transaction of %d blobs whose blob %d is unacceptable (kind %d)", k, pos, bi), "", []string{op})
+					}
+				}
+			}
+		}
+		c.stats.Exhaustive = append(c.stats.Exhaustive, "blob transactions of 2 and 3 blobs with one unacceptable blob (14 kinds) at every position")
 	}
 	// JSON and binary round trip of every boundary namespace (all reserved constants and their neighbours,
 	// other versions, carry chains): a namespace value that exists must survive its own encoding
